@@ -86,6 +86,9 @@ fn run_t<T: Elem>(c: &Case, tsan: bool) -> Outcome {
     let cons_idle = Arc::new(AtomicU64::new(0));
     let (pi2, ci2) = (prod_idle.clone(), cons_idle.clone());
     let (pi3, ci3) = (prod_idle.clone(), cons_idle.clone());
+    let tags_sent = Arc::new(AtomicU64::new(0));
+    let tags_seen = Arc::new(AtomicU64::new(0));
+    let (tags_sent2, tags_seen2) = (tags_sent.clone(), tags_seen.clone());
     let prod_done = Arc::new(AtomicBool::new(false));
     let (pd2, pd3) = (prod_done.clone(), prod_done.clone());
     let done = Arc::new(AtomicBool::new(false));
@@ -158,7 +161,16 @@ fn run_t<T: Elem>(c: &Case, tsan: bool) -> Outcome {
                 }
                 jitter(&mut rng, tsan);
                 let n = if rng.chance(3, 4) { k } else { rng.range(0, k) };
-                wb.produce(n, &[]);
+                // a third of the commits carry tags keyed by the sample id they sit on
+                let mut tags = Vec::new();
+                if n > 0 && rng.chance(1, 3) {
+                    for _ in 0..rng.range(1, 3) {
+                        let pos = rng.below(n);
+                        tags.push(rustradio::stream::Tag::new(pos, format!("t{}", next + pos as u64), rustradio::stream::TagValue::U64(next + pos as u64)));
+                    }
+                    tags_sent2.fetch_add(tags.len() as u64, Ordering::Relaxed);
+                }
+                wb.produce(n, &tags);
                 next += n as u64;
                 if rng.chance(1, 16) {
                     let f = match &p {
@@ -184,12 +196,17 @@ fn run_t<T: Elem>(c: &Case, tsan: bool) -> Outcome {
             let mut idle = 0u64;
             loop {
                 jitter(&mut rng, tsan);
-                let (rb, _tags) = match &q {
+                let (rb, wtags) = match &q {
                     Cons::Raw(b) => b.clone().read_buf(),
                     Cons::S(r) => r.read_buf(),
                 }
                 .map_err(|e| format!("read_buf failed during the legal protocol: {e}"))?;
                 let len = rb.len();
+                for t in &wtags {
+                    if t.pos() >= len || t.key() != format!("t{}", expect + t.pos() as u64) {
+                        return Err(format!("tag {:?} reported at window position {} where sample {} sits", t.key(), t.pos(), expect + t.pos() as u64));
+                    }
+                }
                 if len > cap {
                     return Err(format!("read window of {len} > capacity {cap}"));
                 }
@@ -287,6 +304,7 @@ fn run_t<T: Elem>(c: &Case, tsan: bool) -> Outcome {
                     2 => 0,
                     _ => rng.range(0, len),
                 };
+                tags_seen2.fetch_add(wtags.iter().filter(|t| t.pos() < m).count() as u64, Ordering::Relaxed);
                 rb.consume(m);
                 expect += m as u64;
             }
@@ -308,6 +326,10 @@ fn run_t<T: Elem>(c: &Case, tsan: bool) -> Outcome {
             transferred = n;
             if n != total {
                 findings.push(("count-mismatch".into(), format!("consumer received {n} of {total}")));
+            }
+            let (sent, seen) = (tags_sent.load(Ordering::SeqCst), tags_seen.load(Ordering::SeqCst));
+            if seen > sent {
+                findings.push(("tags-duplicated".into(), format!("{sent} tags committed, {seen} seen on consumed samples")));
             }
         }
         Ok(Err(e)) => findings.push((if e.starts_with("deadlock") { "deadlock".to_string() } else { "sequence-oracle".to_string() }, e)),
